@@ -73,7 +73,7 @@ class TLCResult:
         }
 
 
-_cov_re = re.compile(r"^<(\w+) line \d+, col \d+ to line \d+, col \d+ of module (\w+)>: (\d+):(\d+)")
+_cov_re = re.compile(r"^<(\w+) line \d+, col \d+ to line \d+, col \d+ of module (\w+)(?: \([\d ]+\))?>: (\d+):(\d+)")
 
 
 def run_tlc(
@@ -147,7 +147,8 @@ def run_tlc(
             r.depth = int(m.group(1))
         m = _cov_re.match(line)
         if m:
-            r.coverage[m.group(1)] = (int(m.group(4)), int(m.group(3)))  # (taken, new distinct)
+            old = r.coverage.get(m.group(1), (0, 0))
+            r.coverage[m.group(1)] = (old[0] + int(m.group(4)), old[1] + int(m.group(3)))  # (taken, new distinct)
         m = re.match(r"^Error: (Invariant|Action property|Temporal properties|Assumption|Deadlock|Evaluating)(.*)", line)
         if m and r.violation is None:
             r.violation = line
